@@ -1,6 +1,7 @@
 import AbraModel.Drv.Util
 import AbraModel.Drv.I64
 import AbraModel.Drv.Arena
+import AbraModel.Drv.Sort
 /- Line-protocol model driver: one request per input line (`<component> <args…>`), one answer per line. -/
 open Abra.Drv
 
@@ -9,6 +10,7 @@ def dispatch (line : String) : String :=
   | [] => "bad-op"
   | "i64" :: rest => handleI64 rest
   | "arena" :: rest => handleArena rest
+  | "sort" :: rest => handleSort rest
   | _ => "bad-op"
 
 partial def loop (h : IO.FS.Stream) (out : IO.FS.Stream) : IO Unit := do
